@@ -240,15 +240,30 @@ def check_reserved(ctx):
 
 # ---- printers cover what the tree shows ------------------------------------------------------------------------------
 
-def self_reads(model, ci, fn, seen=None):
-    """attributes of self read by a method, following self.<helper>() calls"""
+def self_reads(model, ci, fn, seen=None, recv='self'):
+    """attributes of the node read by a method: directly, through self.<helper>() calls, through getattr(self, <name>) with the name a literal or taken from a
+    constant table of the class / module, and through module-level helper functions that receive the node"""
     seen = seen or set()
     out = set()
-    if id(fn) in seen:
+    if (id(fn), recv) in seen:
         return out
-    seen.add(id(fn))
+    seen.add((id(fn), recv))
+    module = model.src.tree(ci.file)
+    mod_fns = {n.name: n for n in module.body if isinstance(n, ast.FunctionDef)}
+
+    def const_strings(e):
+        return {x.value for x in ast.walk(e) if isinstance(x, ast.Constant) and isinstance(x.value, str)}
+
+    def table_of(name_node):
+        # self.TABLE / Class.TABLE / TABLE: a class-level or module-level constant
+        nm = name_node.attr if isinstance(name_node, ast.Attribute) else (name_node.id if isinstance(name_node, ast.Name) else None)
+        for scope in [c.node.body for c in model.mro(ci) if hasattr(c, 'node')] + [module.body]:
+            for st in scope:
+                if isinstance(st, ast.Assign) and any(isinstance(t, ast.Name) and t.id == nm for t in st.targets):
+                    return st.value
+        return None
     for n in ast.walk(fn):
-        if isinstance(n, ast.Attribute) and isinstance(n.value, ast.Name) and n.value.id == 'self' and isinstance(n.ctx, ast.Load):
+        if isinstance(n, ast.Attribute) and isinstance(n.value, ast.Name) and n.value.id == recv and isinstance(n.ctx, ast.Load):
             c, m = model.method(ci, n.attr)
             if m is not None:
                 par = getattr(n, '_parent', None)
@@ -256,6 +271,21 @@ def self_reads(model, ci, fn, seen=None):
                     out |= self_reads(model, ci, m, seen)
                 continue
             out.add(n.attr)
+        if isinstance(n, ast.Call) and dotted(n.func) == 'getattr' and len(n.args) >= 2 and isinstance(n.args[0], ast.Name) and n.args[0].id == recv:
+            a1 = n.args[1]
+            if isinstance(a1, ast.Constant) and isinstance(a1.value, str):
+                out.add(a1.value)
+            elif isinstance(a1, ast.Name):
+                # the name comes from a loop over a constant table: every string of the table that is a field
+                for lp in ast.walk(fn):
+                    if isinstance(lp, (ast.For, ast.comprehension)) and any(isinstance(x, ast.Name) and x.id == a1.id for x in ast.walk(lp.target)):
+                        tbl = lp.iter if isinstance(lp.iter, (ast.Tuple, ast.List)) else table_of(lp.iter)
+                        if tbl is not None:
+                            out |= const_strings(tbl)
+        if isinstance(n, ast.Call) and isinstance(n.func, ast.Name) and n.func.id in mod_fns:
+            for i, a in enumerate(n.args):
+                if isinstance(a, ast.Name) and a.id == recv and i < len(mod_fns[n.func.id].args.args):
+                    out |= self_reads(model, ci, mod_fns[n.func.id], seen, recv=mod_fns[n.func.id].args.args[i].arg)
     return out
 
 
